@@ -638,7 +638,7 @@ pub assume_specification<T: Clone>[ <[T]>::to_vec ](s: &[T]) -> (r: Vec<T>)
     ensures r@ == s@;   // Clone of BTreeSet<StateID> yields an equal set (std)
 // TRUSTED std contract: the least element (its value is only traced)
 pub assume_specification<T: Ord, A: Allocator + Clone>[ BTreeSet::<T, A>::first ](s: &BTreeSet<T, A>) -> (r: Option<&T>)
-    ensures r is Some <==> exists|y: T| #[trigger] s@.contains(y), r matches Some(x) ==> s@.contains(*x);
+    ensures r is Some <==> exists|y: T| #[trigger] s@.contains(y), r matches Some(x) ==> s@.contains(*x) && (has_ord_key::<T>() ==> forall|y: T| #[trigger] s@.contains(y) ==> ord_key(*x) <= ord_key(y));
 
 /// a reordering of the groups is as good a partition
 pub proof fn lemma_perm_part(p1: Seq<BTreeSet<StateID>>, p2: Seq<BTreeSet<StateID>>, n: int)
@@ -846,10 +846,11 @@ pub open spec fn rem_edge<'a>(rem: Seq<(&'a CharClassID, &'a Vec<StateID>)>, k: 
 pub type AbV = Map<StateID, StateID>;
 pub open spec fn grp_min(p: PartV, g: int, r: StateID) -> bool { 0 <= g < p.len() && p[g].contains(r) && forall|z: StateID| #[trigger] p[g].contains(z) ==> r.0 <= z.0 }
 /// edges an entry with state r holds: r's own and those of the states absorbed into r
-pub open spec fn own_or_absorbed(tm: TMapV, ab: AbV, r: StateID, cc: CharClassID, t: StateID) -> bool {
-    tm_edge(tm, r, cc, t) || exists|x: StateID| #[trigger] ab.contains_key(x) && ab[x] == r && tm_edge(tm, x, cc, t)
+pub type EdgeF = spec_fn(StateID, CharClassID, StateID) -> bool;
+pub open spec fn own_or_absorbed(tm: EdgeF, ab: AbV, r: StateID, cc: CharClassID, t: StateID) -> bool {
+    tm(r, cc, t) || exists|x: StateID| #[trigger] ab.contains_key(x) && ab[x] == r && tm(x, cc, t)
 }
-pub open spec fn merged_inv(tm: TMapV, p: PartV, tv: Seq<TvEntry>, ab: AbV, n: int) -> bool {
+pub open spec fn merged_inv(tm: EdgeF, p: PartV, tv: Seq<TvEntry>, ab: AbV, n: int) -> bool {
     &&& tv_sorted(tv)
     &&& forall|i: int| 0 <= i < tv.len() ==> (#[trigger] tv[i]).0.0 < n && !ab.contains_key(tv[i].0)
     &&& forall|s: StateID| s.0 < n && !(#[trigger] ab.contains_key(s)) ==> tv_has(tv, s)
@@ -860,7 +861,7 @@ pub open spec fn tv_has(tv: Seq<TvEntry>, s: StateID) -> bool { exists|i: int| #
 /// x was absorbed into the least member of its own group
 pub open spec fn absorbed_ok(p: PartV, x: StateID, r: StateID) -> bool { exists|g: int| #[trigger] grp_min(p, g, r) && p[g].contains(x) && r != x }
 
-pub proof fn lemma_merge_step(tm: TMapV, p: PartV, tv0: Seq<TvEntry>, tv1: Seq<TvEntry>, ab: AbV, n: int, r: StateID, x: StateID, rp: int, sp: int, g: int)
+pub proof fn lemma_merge_step(tm: EdgeF, p: PartV, tv0: Seq<TvEntry>, tv1: Seq<TvEntry>, ab: AbV, n: int, r: StateID, x: StateID, rp: int, sp: int, g: int)
     requires
         merged_inv(tm, p, tv0, ab, n), merged_one(tv0, tv1, r, x, rp, sp), tv_sorted(tv1),
         grp_min(p, g, r), p[g].contains(x), r != x, groups_disjoint(p),
@@ -900,11 +901,11 @@ pub proof fn lemma_merge_step(tm: TMapV, p: PartV, tv0: Seq<TvEntry>, tv1: Seq<T
             assert(map_edge(tv0[sp].1@, cc, t) <==> tv_edge(tv0, sp, cc, t));
             assert(tv_edge(tv0, rp, cc, t) <==> own_or_absorbed(tm, ab, r, cc, t));
             assert(tv_edge(tv0, sp, cc, t) <==> own_or_absorbed(tm, ab, x, cc, t));
-            assert(own_or_absorbed(tm, ab, x, cc, t) <==> tm_edge(tm, x, cc, t));
-            if own_or_absorbed(tm, ab, r, cc, t) && !tm_edge(tm, r, cc, t) { let y = choose|y: StateID| #[trigger] ab.contains_key(y) && ab[y] == r && tm_edge(tm, y, cc, t); assert(ab1.contains_key(y) && ab1[y] == r); }
-            if tm_edge(tm, x, cc, t) { assert(ab1.contains_key(x) && ab1[x] == r); }
-            if own_or_absorbed(tm, ab1, r, cc, t) && !tm_edge(tm, r, cc, t) {
-                let y = choose|y: StateID| #[trigger] ab1.contains_key(y) && ab1[y] == r && tm_edge(tm, y, cc, t);
+            assert(own_or_absorbed(tm, ab, x, cc, t) <==> tm(x, cc, t));
+            if own_or_absorbed(tm, ab, r, cc, t) && !tm(r, cc, t) { let y = choose|y: StateID| #[trigger] ab.contains_key(y) && ab[y] == r && tm(y, cc, t); assert(ab1.contains_key(y) && ab1[y] == r); }
+            if tm(x, cc, t) { assert(ab1.contains_key(x) && ab1[x] == r); }
+            if own_or_absorbed(tm, ab1, r, cc, t) && !tm(r, cc, t) {
+                let y = choose|y: StateID| #[trigger] ab1.contains_key(y) && ab1[y] == r && tm(y, cc, t);
                 if y != x { assert(ab.contains_key(y) && ab[y] == r); }
             }
         } else {
@@ -912,11 +913,48 @@ pub proof fn lemma_merge_step(tm: TMapV, p: PartV, tv0: Seq<TvEntry>, tv1: Seq<T
             assert(tv_edge(tv1, i, cc, t) <==> tv_edge(tv0, i0, cc, t));
             let s = tv0[i0].0;
             assert(s != r) by { if s == r { lemma_sorted_pos_unique(tv0, r, i0, rp); } }
-            if own_or_absorbed(tm, ab, s, cc, t) && !tm_edge(tm, s, cc, t) { let y = choose|y: StateID| #[trigger] ab.contains_key(y) && ab[y] == s && tm_edge(tm, y, cc, t); assert(y != x); assert(ab1.contains_key(y) && ab1[y] == s); }
-            if own_or_absorbed(tm, ab1, s, cc, t) && !tm_edge(tm, s, cc, t) { let y = choose|y: StateID| #[trigger] ab1.contains_key(y) && ab1[y] == s && tm_edge(tm, y, cc, t); assert(y != x); assert(ab.contains_key(y) && ab[y] == s); }
+            if own_or_absorbed(tm, ab, s, cc, t) && !tm(s, cc, t) { let y = choose|y: StateID| #[trigger] ab.contains_key(y) && ab[y] == s && tm(y, cc, t); assert(y != x); assert(ab1.contains_key(y) && ab1[y] == s); }
+            if own_or_absorbed(tm, ab1, s, cc, t) && !tm(s, cc, t) { let y = choose|y: StateID| #[trigger] ab1.contains_key(y) && ab1[y] == s && tm(y, cc, t); assert(y != x); assert(ab.contains_key(y) && ab[y] == s); }
         }
     }
     assert forall|y: StateID| #[trigger] ab1.contains_key(y) implies y.0 < n && absorbed_ok(p, y, ab1[y]) by {
         if y == x { assert(tv0[sp].0 == x); assert(grp_min(p, g, r) && p[g].contains(x) && r != x); }
     }
+}
+
+/// the edges the entries of tv hold, by state
+pub open spec fn tv_edges(tv: Seq<TvEntry>) -> EdgeF { |s: StateID, cc: CharClassID, t: StateID| exists|i: int| #[trigger] tv_pos(tv, s, i) && tv_edge(tv, i, cc, t) }
+pub open spec fn grp_done(p: PartV, ab: AbV, g: int) -> bool {
+    exists|r: StateID| #[trigger] grp_min(p, g, r) && !ab.contains_key(r) && forall|x: StateID| #[trigger] p[g].contains(x) && x != r ==> ab.contains_key(x) && ab[x] == r
+}
+pub open spec fn all_done(p: PartV, ab: AbV) -> bool { forall|g: int| 0 <= g < p.len() ==> #[trigger] grp_done(p, ab, g) }
+pub open spec fn grp_untouched(p: PartV, ab: AbV, g: int) -> bool { forall|x: StateID| #[trigger] p[g].contains(x) ==> !ab.contains_key(x) }
+/// every entry of tv0 holds its own edges: the starting point of the merge
+pub proof fn lemma_merged_init(p: PartV, tv: Seq<TvEntry>, n: int)
+    requires tv_sorted(tv), forall|i: int| 0 <= i < tv.len() ==> (#[trigger] tv[i]).0.0 < n, forall|s: StateID| s.0 < n ==> #[trigger] tv_has(tv, s)
+    ensures merged_inv(tv_edges(tv), p, tv, Map::<StateID, StateID>::empty(), n)
+{
+    let e0 = tv_edges(tv);
+    let ab = Map::<StateID, StateID>::empty();
+    assert forall|i: int, cc: CharClassID, t: StateID| 0 <= i < tv.len() implies (#[trigger] tv_edge(tv, i, cc, t) <==> own_or_absorbed(e0, ab, tv[i].0, cc, t)) by {
+        if tv_edge(tv, i, cc, t) { assert(tv_pos(tv, tv[i].0, i)); }
+        if e0(tv[i].0, cc, t) { let j = choose|j: int| #[trigger] tv_pos(tv, tv[i].0, j) && tv_edge(tv, j, cc, t); lemma_sorted_pos_unique(tv, tv[i].0, i, j); }
+    }
+}
+/// a group with a single member is merged as it stands
+pub proof fn lemma_single_done(p: PartV, ab: AbV, g: int)
+    requires 0 <= g < p.len(), p[g].len() == 1, p[g].finite(), grp_untouched(p, ab, g)
+    ensures grp_done(p, ab, g)
+{
+    assert(set_nonempty(p[g])) by { if !set_nonempty(p[g]) { assert(p[g] =~= Set::<StateID>::empty()); } }
+    let r = choose|r: StateID| #[trigger] p[g].contains(r);
+    assert forall|z: StateID| #[trigger] p[g].contains(z) implies z == r by {
+        if z != r {
+            let s2 = Set::<StateID>::empty().insert(r).insert(z);
+            assert(s2.len() == 2);
+            assert(s2.subset_of(p[g]));
+            vstd::set_lib::lemma_len_subset(s2, p[g]);
+        }
+    }
+    assert(grp_min(p, g, r));
 }
